@@ -147,6 +147,15 @@ def search(pid, record):
             last["scenario"] = "store-search"
             last["seed"] = seed
             return last
+        if pid == "C04":
+            for sd in ("1", "2", "3"):
+                t = _run(binary, ["store-concurrent", sd, "1500"])
+                for line in t.stdout.splitlines():
+                    if line.startswith("{") and json.loads(line).get("found"):
+                        w = json.loads(line)
+                        w["scenario"] = "store-concurrent"
+                        w["seed"] = sd
+                        return w
         if pid == "C20":
             t = _run(binary, ["store-torn-append"])
             for line in t.stdout.splitlines():
@@ -183,6 +192,10 @@ def execute(w):
         import durability
         r = durability.search(binary)
         return (not r.get("found")), json.dumps(r)[:700]
+    if w.get("scenario") == "store-concurrent":
+        p = _run(binary, ["store-concurrent", str(w.get("seed", "1")), "3000"])
+        found = p.returncode != 0 or any(l.startswith("{") and json.loads(l).get("found") for l in p.stdout.splitlines())
+        return (not found), p.stdout.strip()[-700:]
     if w.get("scenario") == "store-closed":
         p = _run(binary, ["store-closed"])
         found = p.returncode != 0 or any(l.startswith("{") and json.loads(l).get("found") for l in p.stdout.splitlines())
